@@ -86,6 +86,42 @@ Arguments geom_linearInterpolator_seq {F} _.
 Arguments geom_linearInterpolator_cumulative {F} _.
 Arguments geom_linearInterpolator_total {F} _.
 
+(* geom/type_polygon.go: type Polygon struct *)
+Record geom_Polygon (F : Type) := Mk_geom_Polygon {
+  geom_Polygon_rings : (list (geom_LineString F));
+  geom_Polygon_ctype : Z
+}.
+Arguments Mk_geom_Polygon {F}.
+Arguments geom_Polygon_rings {F} _.
+Arguments geom_Polygon_ctype {F} _.
+
+(* geom/type_multi_line_string.go: type MultiLineString struct *)
+Record geom_MultiLineString (F : Type) := Mk_geom_MultiLineString {
+  geom_MultiLineString_lines : (list (geom_LineString F));
+  geom_MultiLineString_ctype : Z
+}.
+Arguments Mk_geom_MultiLineString {F}.
+Arguments geom_MultiLineString_lines {F} _.
+Arguments geom_MultiLineString_ctype {F} _.
+
+(* geom/type_point.go: type Point struct *)
+Record geom_Point (F : Type) := Mk_geom_Point {
+  geom_Point_coords : (geom_Coordinates F);
+  geom_Point_full : bool
+}.
+Arguments Mk_geom_Point {F}.
+Arguments geom_Point_coords {F} _.
+Arguments geom_Point_full {F} _.
+
+(* geom/type_multi_point.go: type MultiPoint struct *)
+Record geom_MultiPoint (F : Type) := Mk_geom_MultiPoint {
+  geom_MultiPoint_points : (list (geom_Point F));
+  geom_MultiPoint_ctype : Z
+}.
+Arguments Mk_geom_MultiPoint {F}.
+Arguments geom_MultiPoint_points {F} _.
+Arguments geom_MultiPoint_ctype {F} _.
+
 (* ==================== typed integer constants *)
 
 (* geom/alg_orientation.go: const leftTurn threePointOrientation *)
@@ -706,6 +742,192 @@ Definition geom_densify (seq : (list (geom_Coordinates F))) (maxDist : F) : part
       | LErr msg_3 => (Unknown msg_3)
       end.
 
+(* geom/type_polygon.go:Polygon.IsCW  (Unknown: the Go code panics at run time) *)
+Definition geom_Polygon_IsCW (p : (geom_Polygon F)) : partial bool :=
+  match range_loop (A:=(geom_LineString F)) (S:=unit) (R:=bool)
+      (fun i ring _ =>
+        match (geom_signedAreaOfLinearRing ring None) with
+        | Known r1 =>
+        let isCW := (f_ltb ops r1 (f_of_Z ops 0%Z)) in
+        if (negb (Bool.eqb (Z.eqb i 0%Z) isCW)) then
+          (SReturn false)
+        else
+          (SNext tt)
+        | Unknown msg => (SFail msg)
+        end)
+      (geom_Polygon_rings p) 0%Z tt with
+  | LDone _ =>
+    (Known true)
+  | LRet ret => (Known ret)
+  | LErr msg_1 => (Unknown msg_1)
+  end.
+
+(* geom/type_polygon.go:Polygon.IsCCW  (Unknown: the Go code panics at run time) *)
+Definition geom_Polygon_IsCCW (p : (geom_Polygon F)) : partial bool :=
+  match range_loop (A:=(geom_LineString F)) (S:=unit) (R:=bool)
+      (fun i ring _ =>
+        match (geom_signedAreaOfLinearRing ring None) with
+        | Known r1 =>
+        let isCCW := (f_gtb ops r1 (f_of_Z ops 0%Z)) in
+        if (negb (Bool.eqb (Z.eqb i 0%Z) isCCW)) then
+          (SReturn false)
+        else
+          (SNext tt)
+        | Unknown msg => (SFail msg)
+        end)
+      (geom_Polygon_rings p) 0%Z tt with
+  | LDone _ =>
+    (Known true)
+  | LRet ret => (Known ret)
+  | LErr msg_1 => (Unknown msg_1)
+  end.
+
+(* geom/type_multi_line_string.go:MultiLineString.Length  (Unknown: the Go code panics at run time) *)
+Definition geom_MultiLineString_Length (m : (geom_MultiLineString F)) : partial F :=
+  let sum_1 := (f_of_Z ops 0%Z) in
+  match range_loop (A:=(geom_LineString F)) (S:=F) (R:=F)
+      (fun idx ln sum_1 =>
+        match (geom_LineString_Length ln) with
+        | Known r1 =>
+        let sum_1 := (f_add ops sum_1 r1) in
+        (SNext sum_1)
+        | Unknown msg => (SFail msg)
+        end)
+      (geom_MultiLineString_lines m) 0%Z sum_1 with
+  | LDone sum_1 =>
+    (Known sum_1)
+  | LRet ret => (Known ret)
+  | LErr msg_1 => (Unknown msg_1)
+  end.
+
+(* geom/type_point.go:NewEmptyPoint *)
+Definition geom_NewEmptyPoint (ctype : Z) : (geom_Point F) :=
+  (Mk_geom_Point (Mk_geom_Coordinates (Mk_geom_XY (f_of_Z ops 0%Z) (f_of_Z ops 0%Z)) (f_of_Z ops 0%Z) (f_of_Z ops 0%Z) ctype) false).
+
+(* geom/type_point.go:NewPoint *)
+Definition geom_NewPoint (c : (geom_Coordinates F)) : (geom_Point F) :=
+  let c :=
+    if (negb (geom_CoordinatesType_Is3D (geom_Coordinates_Type c))) then
+      let r1 := (f_of_Z ops 0%Z) in
+      let c := (Mk_geom_Coordinates (geom_Coordinates_XY c) r1 (geom_Coordinates_M c) (geom_Coordinates_Type c)) in
+      c
+    else
+      c in
+  let c :=
+    if (negb (geom_CoordinatesType_IsMeasured (geom_Coordinates_Type c))) then
+      let r2 := (f_of_Z ops 0%Z) in
+      let c := (Mk_geom_Coordinates (geom_Coordinates_XY c) (geom_Coordinates_Z c) r2 (geom_Coordinates_Type c)) in
+      c
+    else
+      c in
+  (Mk_geom_Point c true).
+
+(* geom/xy.go:XY.AsPoint *)
+Definition geom_XY_AsPoint (w : (geom_XY F)) : (geom_Point F) :=
+  let coords := (Mk_geom_Coordinates w (f_of_Z ops 0%Z) (f_of_Z ops 0%Z) geom_DimXY) in
+  (geom_NewPoint coords).
+
+(* geom/type_line_string.go:LineString.Centroid  (Unknown: the Go code panics at run time) *)
+Definition geom_LineString_Centroid (s : (geom_LineString F)) : partial (geom_Point F) :=
+  match (geom_sumCentroidAndLengthOfLineString s) with
+  | Known r1 =>
+  let '(sumXY, sumLength) := r1 in
+  if (f_eqb ops sumLength (f_of_Z ops 0%Z)) then
+    (Known (geom_NewEmptyPoint geom_DimXY))
+  else
+    (Known (geom_XY_AsPoint (geom_XY_Scale sumXY (f_div ops (f_of_Z ops 1%Z) sumLength))))
+  | Unknown msg => (Unknown msg)
+  end.
+
+(* geom/type_multi_point.go:MultiPoint.NumPoints *)
+Definition geom_MultiPoint_NumPoints (m : (geom_MultiPoint F)) : Z :=
+  (Z.of_nat (length (geom_MultiPoint_points m))).
+
+(* geom/type_multi_point.go:MultiPoint.PointN  (Unknown: the Go code panics at run time) *)
+Definition geom_MultiPoint_PointN (m : (geom_MultiPoint F)) (n : Z) : partial (geom_Point F) :=
+  match (lookup (geom_MultiPoint_points m) n) with
+  | Some e1 =>
+  (Known e1)
+  | None => (Unknown "index out of range"%string)
+  end.
+
+(* geom/type_point.go:Point.XY *)
+Definition geom_Point_XY (p : (geom_Point F)) : ((geom_XY F) * bool)%type :=
+  ((geom_Coordinates_XY (geom_Point_coords p)), (geom_Point_full p)).
+
+(* geom/type_multi_point.go:MultiPoint.Centroid  (Unknown: the Go code panics at run time) *)
+Definition geom_MultiPoint_Centroid (m : (geom_MultiPoint F)) : partial (geom_Point F) :=
+  let sum_1 := (Mk_geom_XY (f_of_Z ops 0%Z) (f_of_Z ops 0%Z)) in
+  let n := 0%Z in
+  match for_loop (S:=((geom_XY F) * Z)%type) (R:=(geom_Point F))
+      (fun i => (Z.ltb i (geom_MultiPoint_NumPoints m)))
+      (fun i '(sum_1, n) =>
+        match (geom_MultiPoint_PointN m i) with
+        | Known r1_1 =>
+        let '(xy, ok) := (geom_Point_XY r1_1) in
+        let '(sum_1, n) :=
+          if ok then
+            let sum_1 := (geom_XY_Add sum_1 xy) in
+            let n := (Z.add n 1%Z) in
+            (sum_1, n)
+          else
+            (sum_1, n) in
+        (SNext (sum_1, n))
+        | Unknown msg => (SFail msg)
+        end)
+      1%Z (Z.to_nat (let i := 0%Z in (Z.sub (geom_MultiPoint_NumPoints m) i))) 0%Z (sum_1, n) with
+  | LDone (sum_1, n) =>
+    if (Z.eqb n 0%Z) then
+      (Known (geom_NewEmptyPoint geom_DimXY))
+    else
+      (Known (geom_XY_AsPoint (geom_XY_Scale sum_1 (f_div ops (f_of_Z ops 1%Z) (f_of_Z ops n)))))
+  | LRet ret => (Known ret)
+  | LErr msg_1 => (Unknown msg_1)
+  end.
+
+(* geom/type_envelope.go:Envelope.ExpandToIncludeEnvelope *)
+Definition geom_Envelope_ExpandToIncludeEnvelope (e : (geom_Envelope F)) (o : (geom_Envelope F)) : (geom_Envelope F) :=
+  if (geom_Envelope_IsEmpty e) then
+    o
+  else
+    if (geom_Envelope_IsEmpty o) then
+      e
+    else
+      (geom_newUncheckedEnvelope (Mk_geom_XY (geom_fastMin (geom_XY_X (geom_Envelope_min e)) (geom_XY_X (geom_Envelope_min o))) (geom_fastMin (geom_XY_Y (geom_Envelope_min e)) (geom_XY_Y (geom_Envelope_min o)))) (Mk_geom_XY (geom_fastMax (geom_XY_X (geom_Envelope_max e)) (geom_XY_X (geom_Envelope_max o))) (geom_fastMax (geom_XY_Y (geom_Envelope_max e)) (geom_XY_Y (geom_Envelope_max o))))).
+
+(* geom/type_point.go:Point.Envelope *)
+Definition geom_Point_Envelope (p : (geom_Point F)) : (geom_Envelope F) :=
+  let '(xy, ok) := (geom_Point_XY p) in
+  if ok then
+    (geom_Envelope_ExpandToIncludeXY (Mk_geom_Envelope (Mk_geom_XY (f_of_Z ops 0%Z) (f_of_Z ops 0%Z)) (Mk_geom_XY (f_of_Z ops 0%Z) (f_of_Z ops 0%Z)) false) xy)
+  else
+    (Mk_geom_Envelope (Mk_geom_XY (f_of_Z ops 0%Z) (f_of_Z ops 0%Z)) (Mk_geom_XY (f_of_Z ops 0%Z) (f_of_Z ops 0%Z)) false).
+
+(* geom/type_multi_point.go:MultiPoint.Envelope  (Unknown: the Go code panics at run time) *)
+Definition geom_MultiPoint_Envelope (m : (geom_MultiPoint F)) : partial (geom_Envelope F) :=
+  let env := (Mk_geom_Envelope (Mk_geom_XY (f_of_Z ops 0%Z) (f_of_Z ops 0%Z)) (Mk_geom_XY (f_of_Z ops 0%Z) (f_of_Z ops 0%Z)) false) in
+  match range_loop (A:=(geom_Point F)) (S:=(geom_Envelope F)) (R:=(geom_Envelope F))
+      (fun idx pt env =>
+        let env := (geom_Envelope_ExpandToIncludeEnvelope env (geom_Point_Envelope pt)) in
+        (SNext env))
+      (geom_MultiPoint_points m) 0%Z env with
+  | LDone env =>
+    (Known env)
+  | LRet ret => (Known ret)
+  | LErr msg => (Unknown msg)
+  end.
+
+(* geom/alg_simplify.go:perpendicularDistance *)
+Definition geom_perpendicularDistance (p : (geom_XY F)) (a : (geom_XY F)) (b : (geom_XY F)) : F :=
+  if (geom_XY_eqb a b) then
+    (geom_XY_Length (geom_XY_Sub p a))
+  else
+    let aSubP := (geom_XY_Sub a p) in
+    let bSubA := (geom_XY_Sub b a) in
+    let unit_1 := (geom_XY_Scale bSubA (f_div ops (f_of_Z ops 1%Z) (geom_XY_Length bSubA))) in
+    let perpendicular := (geom_XY_Sub aSubP (geom_XY_Scale unit_1 (geom_XY_Dot aSubP unit_1))) in
+    (geom_XY_Length perpendicular).
+
 End Funcs.
 
-(* translated: 44 functions; not translated: 0 *)
+(* translated: 59 functions; not translated: 0 *)
